@@ -43,7 +43,7 @@ UNITS = [
     U("U-defaults", ["options::Options::default"], ["options_default"], ["C14"], domain="no input: complete", mem_gb=4, timeout=300, assumes=[A_DROP]),
     U("U-isconst", ["util::is_jsx_attr_value_constant", "util::is_constant"], ISCONST_Q, ["C13"], completeness="bounded",
       domain="7 leaf kinds bare and in array / two-element array / spread wrappers, nesting depth <= 2 (the object-literal wrapper is thorough-tier)", mem_gb=6, timeout=900, assumes=[A_DROP, A_CLONE]),
-    U("U-isconst-more", ["util::is_jsx_attr_value_constant", "util::is_constant"], [h for h in ISCONST if h not in ISCONST_Q], ["C13"], completeness="bounded", tier="thorough",
+    U("U-isconst-more", ["util::is_jsx_attr_value_constant", "util::is_constant"], [h for h in ISCONST if h not in ISCONST_Q], ["C13"], completeness="bounded", tier="out_of_reach",
       domain="4 leaf kinds inside an object literal", mem_gb=24, timeout=2400, assumes=[A_DROP, A_CLONE]),
     U("U-tag", ["VueJsxTransformVisitor::transform_tag", "VueJsxTransformVisitor::is_component", "VueJsxTransformVisitor::import_from_vue"],
       TAGS + ["tag_member", "tag_member_fragment", "tag_member_keepalive", "tag_member_fragment_alias"], ["C01", "C02", "C03", "C08"], domain="9 tag names x {no pattern, ^x-} x symbolic {unresolved, 4 options}", mem_gb=6, timeout=900, assumes=[A_DROP, A_CLONE, A_FMT]),
@@ -51,11 +51,11 @@ UNITS = [
     U("U-tag-frame", ["VueJsxTransformVisitor::is_component"], ["tagframe_alias_text", "tagframe_foo", "tagframe_div"], ["C10"], domain="2-safety: two visitor states that differ in the Fragment import", mem_gb=8, assumes=[A_DROP, A_FMT]),
     U("U-tag-two-bindings", ["VueJsxTransformVisitor::transform_tag"], ["tag_same_name_unresolved_then_bound", "tag_same_name_bound_then_unresolved"], ["C10", "C01"], domain="the same tag name with two different bindings in one module, either order x symbolic options", mem_gb=16, timeout=1500, assumes=[A_DROP, A_FMT]),
     U("U-tag-nojsx", ["VueJsxTransformVisitor::transform_tag"], ["tag_namespaced_no_jsx_leak"], ["C07"], domain="namespaced tag", mem_gb=8, assumes=[A_DROP, A_FMT]),
-    U("U-attrs-plain-whole", ["VueJsxTransformVisitor::transform_attrs", "util::is_on", "util::dedupe_props", "directive::is_directive"], PLAIN,
-      ["C13", "C01"], completeness="bounded", domain="one attribute: 11 names x {dynamic, value-less, string} x symbolic {host kind, constness, 4 options}; attribute list length 1",
-      mem_gb=22, timeout=1800, tier="thorough", assumes=[A_DROP, A_CLONE, A_PD, A_TT, A_CONST, A_FMT]),
+    U("U-attrs-plain-whole", ["VueJsxTransformVisitor::transform_attrs", "util::is_on", "util::dedupe_props", "directive::is_directive"], ["attr_class_dyn", "attr_id_dyn"],
+      ["C13", "C01"], completeness="bounded", domain="the WHOLE transform_attrs (fold glue + arms + assembly + finalisation) on one attribute: {class, id} dynamic x symbolic {host kind, constness, 4 options}; 10 min and > 20 GB per harness",
+      mem_gb=30, timeout=2400, tier="thorough", assumes=[A_DROP, A_CLONE, A_PD, A_TT, A_CONST, A_FMT]),
         U("U-attrs-darm", ["VueJsxTransformVisitor::transform_attrs"], DARM, ["C04", "C05", "C13", "C03"], completeness="bounded",
-      domain="one directive attribute: 9 parse results (normal, html, text, 4 v-model argument forms, 2 v-slots) x symbolic {host kind, options}", mem_gb=22, timeout=1800, tier="thorough", assumes=[A_DROP, A_CLONE, A_PD, A_FMT]),
+      domain="one directive attribute: 9 parse results (normal, html, text, 4 v-model argument forms, 2 v-slots) x symbolic {host kind, options}", mem_gb=22, timeout=1800, tier="out_of_reach", assumes=[A_DROP, A_CLONE, A_PD, A_FMT]),
 ]
 
 DIRSPELL = ["dirspell_kebab", "dirspell_camel", "dirspell_camel_inner_upper", "dirspell_one_modifier", "dirspell_two_modifiers", "dirspell_ns_arg",
@@ -103,11 +103,11 @@ UNITS += [
     U("U-inject", ["inject_define_component_option"], ["inject_no_options", "inject_spread_args"], ["C20"], completeness="bounded", domain="no options argument; spread argument list", mem_gb=8, timeout=900, assumes=[A_DROP, A_CLONE]),
     U("U-inject-literal", ["inject_define_component_option"], [h for h in INJECT if h not in ("inject_no_options", "inject_spread_args")], ["C20"], completeness="bounded", tier="out_of_reach",
       domain="6 options-literal shapes (other key, same key as identifier / string / shorthand, non-literal options, literal containing a spread); Vec::insert at a computed position makes the SAT instance large", mem_gb=24, timeout=5400, assumes=[A_DROP, A_CLONE]),
-    U("U-rttable", ["resolve_type::infer_runtime_type"], ["rt_keywords", "rt_literals"] + RTB[:8], ["C17"], completeness="bounded",
-      domain="all keyword kinds of the table, literal kinds, 8 built-in names", mem_gb=8, timeout=1200, assumes=[A_DROP, A_CLONE]),
-    U("U-rttable-more", ["resolve_type::infer_runtime_type"], ["rt_structural"] + RTB[8:], ["C17"], completeness="bounded", tier="thorough",
+    U("U-rttable", ["resolve_type::infer_runtime_type"], ["rt_keywords", "rt_literals"] + RTB, ["C17"], completeness="bounded",
+      domain="all keyword kinds of the table, literal kinds, 20 built-in names", mem_gb=8, timeout=1200, assumes=[A_DROP, A_CLONE]),
+    U("U-rttable-more", ["resolve_type::infer_runtime_type"], ["rt_structural"], ["C17"], completeness="bounded", tier="out_of_reach",
       domain="12 more built-in names, fn/array/tuple/paren/union/NonNullable one level", mem_gb=10, timeout=2400, assumes=[A_DROP, A_CLONE]),
-    U("U-rt-emission", ["resolve_type::extract_props_type", "resolve_type::build_props_type", "resolve_type::resolve_indexed_access"], ["props_type_emission_nullable_union", "rt_indexed_access"], ["C17"], completeness="bounded", tier="thorough",
+    U("U-rt-emission", ["resolve_type::extract_props_type", "resolve_type::build_props_type", "resolve_type::resolve_indexed_access"], ["props_type_emission_nullable_union", "rt_indexed_access"], ["C17"], completeness="bounded", tier="out_of_reach",
       domain="`string | null` emission through extract_props_type; array / tuple indexed access", mem_gb=20, timeout=3600, assumes=[A_DROP, A_CLONE, A_FMT]),
     U("U-rt-bigint", ["resolve_type::infer_runtime_type"], ["rt_bigint_literal"], ["C17"], domain="bigint literal type", mem_gb=8, assumes=[A_DROP]),
 ]
@@ -158,8 +158,8 @@ UNITS += [
 UNITS += [
     U("U-dedupe", ["util::dedupe_props"], ["dedupe_class_twice", "dedupe_plain_twice", "dedupe_distinct"], ["C01"], completeness="bounded",
       domain="prop lists of length 2: repeated class, repeated ordinary key, distinct keys", mem_gb=8, timeout=900, unwindset={"memcmp.0": 12}, assumes=[A_DROP, A_CLONE]),
-    U("U-dedupe-more", ["util::dedupe_props"], ["dedupe_listener_around_other", "dedupe_across_spread", "dedupe_class_thrice"], ["C01"], completeness="bounded", tier="thorough",
-      domain="prop lists of length 3: listener around another prop, a spread in between, three class values", mem_gb=20, timeout=3600, unwindset={"memcmp.0": 12}, assumes=[A_DROP, A_CLONE]),
+    U("U-dedupe-more", ["util::dedupe_props"], ["dedupe_class_thrice"], ["C01"], completeness="bounded", tier="thorough",
+      domain="three repeated class values (listener around another prop / a spread in between: out of memory at 24 GB, not run)", mem_gb=24, timeout=2400, unwindset={"memcmp.0": 12}, assumes=[A_DROP, A_CLONE]),
 ]
 
 UNITS += [
@@ -176,10 +176,12 @@ UNITS += [
     U("U-emit-hints", ["VueJsxTransformVisitor::transform_jsx_element[hint emission]"], ["hints_no_dynamic_props", "hints_one_dynamic_prop", "hints_two_dynamic_props", "hints_list_absent"], ["C13"],
       domain="hint-emission region of transform_jsx_element (extracted verbatim): every flag word 0..2047 (symbolic) x dynamic-prop list {absent, empty, 1, 2 names} x symbolic options: complete over that domain",
       mem_gb=6, timeout=900, unwindset={"memcmp.0": 12}, assumes=[A_DROP, A_CLONE, A_FMT, A_EXTRACT]),
-    U("U-wrap-directives", ["VueJsxTransformVisitor::transform_jsx_element[withDirectives wrapping]", "VueJsxTransformVisitor::resolve_directive"],
-      ["wrapdir_none", "wrapdir_value_only", "wrapdir_with_arg", "wrapdir_with_mods_only", "wrapdir_with_arg_and_mods", "wrapdir_two"], ["C04"], completeness="bounded", tier="thorough",
-      domain="withDirectives region of transform_jsx_element (extracted verbatim): 0, 1 (x arg / modifiers present) or 2 directives", mem_gb=20, timeout=3600, unwindset={"memcmp.0": 16}, assumes=[A_DROP, A_CLONE, A_FMT, A_EXTRACT]),
-    U("U-fragment", ["VueJsxTransformVisitor::transform_jsx_fragment"], ["fragment_lowering"], ["C02", "C15"], completeness="bounded", tier="thorough",
+    U("U-wrap-directives", ["VueJsxTransformVisitor::transform_jsx_element[withDirectives wrapping]"], ["wrapdir_none"], ["C04"],
+      domain="withDirectives region of transform_jsx_element (extracted verbatim): without directives the vnode call is returned as is", mem_gb=6, timeout=600, unwindset={"memcmp.0": 16}, assumes=[A_DROP, A_CLONE, A_FMT, A_EXTRACT]),
+    U("U-wrap-directives-more", ["VueJsxTransformVisitor::transform_jsx_element[withDirectives wrapping]", "VueJsxTransformVisitor::resolve_directive"],
+      ["wrapdir_value_only", "wrapdir_with_arg", "wrapdir_with_mods_only", "wrapdir_with_arg_and_mods", "wrapdir_two"], ["C04"], completeness="bounded", tier="out_of_reach",
+      domain="1 (x arg / modifiers present) or 2 directives: out of memory at 24 GB", mem_gb=24, timeout=3600, unwindset={"memcmp.0": 16}, assumes=[A_DROP, A_CLONE, A_FMT, A_EXTRACT]),
+    U("U-fragment", ["VueJsxTransformVisitor::transform_jsx_fragment"], ["fragment_lowering"], ["C02", "C15"], completeness="bounded", tier="out_of_reach",
       domain="empty fragment x {pragma option, none} x symbolic options", mem_gb=16, timeout=2400, unwindset={"memcmp.0": 16}, assumes=[A_DROP, A_CLONE, A_FMT]),
 ]
 
